@@ -75,6 +75,12 @@ STRENGTHEN = {
  "C17-r5m2": "chunk-related encodings on the site-less coordinates of the C17 datasets",
  "C18-r5m1": "hp01 with more swells than the spectrum has added to the operations C18 observes (pristine-process oracle)",
  "C18-r5m2": "after ds['efth'] = oned() the Dataset accessor must agree with the accessor of efth (C18)",
+ "C05-r6m1": "the legacy regridder interp_spec is driven with Fortran-ordered / transposed / strided spectra in C05",
+ "C07-r6m1": "bbox (two boxes) and ptm4 are always among the operations run with both spectral dimensions chunked (C07)",
+ "C17-r6m1": "from_ncswan on a dataset that already carries the wavespectra names added to the C17 table",
+ "C17-r6m2": "statistics on arrays whose non-dimension coordinates (lon, lat, scalar time) have no attributes added to C17",
+ "C18-r6m1": "histories in which the variable is replaced by its own energy form (values and the attributes stamped on it), then observed; values compared",
+ "C20-r6m1": "two boxes apart along both axes (diagonal in the freq–dir plane) added to the C20 operations",
  "C20-m1": "whole-map timeout in pmap: a hang inside native code is reported as a termination failure and the native sub-check still runs (C20)",
 }
 MANUAL_LATER = {  # re-runs done directly with tools/seeded.py (not in a batch log)
